@@ -286,6 +286,8 @@ def check_case(case, rec):
 def run(spec, rec):
   rng = util.rng_for(spec["seed"], PROPERTY, spec["name"])
   for i in range(spec["n"]):
+    if i % 8 == 7:
+      util.release_compiled_code()
     if time.time() > rec.deadline:
       rec.count("dropped_for_budget", spec["n"] - i)
       break
